@@ -193,6 +193,30 @@ CLAIMS = {
 NOT_APPLICABLE = []
 
 
+# What rounds 9-10 added to the replay side of each check (DESIGN.md 7), appended to the level note.
+ADDED = {
+    "C01": "one call on 2e7 price points against chunks; one long-lived hedger through re-strike / clause / cost change / re-simulation / an aborted call / replaced inputs.",
+    "C02": "hedging instruments with a shorter series than the underlier; quotes that start at or below zero; a model without a finite hedge ratio at some steps.",
+    "C03": "interrupted stepping of one bound feature; time features at a non-dyadic step in double precision; stepping by hand through get_input.",
+    "C04": "axioms on the criterion modules with re-assigned parameters; batch independence over columns of very different spreads.",
+    "C06": "entropic-risk cash far beyond the exp range; OCE on the default search; single-precision samples of level >= 16 (defect repaired); amounts independent of gradient recording.",
+    "C07": "broadcasting incl. 1-D strikes; Python-number strikes on the whole lattice; modules against the state read off raw series; BlackScholes(d) rebuilt after re-configuration.",
+    "C08": "Greek obligations on a second lattice (short-dated, low-priced); all modules of a product alive at once; broadcasting and Python-number strikes for the Greeks.",
+    "C09": "broadcasting and Python-number strikes on the lattice; modules rebuilt after re-configuration.",
+    "C10": "Jump.tla moments on quadrature nodes; the antithetic engine on supplied normals.",
+    "C11": "horizons between grid points (Market.tla in half steps); half precision for every kind and generator; no dtype requested with double-precision scalar initial states; sigma(t) surfaces.",
+    "C12": "attribute reads of underlier names in Registry.tla (defect repaired); prices one unit in the last place from the strike.",
+    "C13": "time features incl. negative steps; the grid after hedging with a listed option of another maturity.",
+    "C14": "updates of optimiser-owned parameters outside the model; Dropout with a re-seeded stream; failed evaluations restore the grad mode.",
+    "C15": "non-finite criterion values; lazy models with a hedge list (defect repaired); one stateful optimiser shared by two hedgers; the hedger called directly before fit().",
+    "C16": "Abort as an action of Session.tla; held series never written into; series shared by two instruments; models of another dtype than the series.",
+    "C17": "long-lived hedgers evaluated for all steps at once across casts; constructors with non-floating dtypes.",
+    "C18": "negative zero (defect repaired) and next-to-the-strike representatives; negative arguments rejected after failed calls.",
+    "C19": "implied volatility with an unreachable precision must stop (watchdog); targets of another dtype than the bracket.",
+    "C20": "inputs far outside the interval; Whalley-Wilmott at the gamma singularity with and without cost (defect repaired); helper modules re-configured after use.",
+}
+
+
 def main() -> None:
     checks = []
     for pid, c in sorted(CLAIMS.items()):
@@ -204,7 +228,7 @@ def main() -> None:
             "replay_cmd_template": f"./check {pid} --replay {{path}}",
             "engine": c["engine"],
             "level_claimed": {"category": c["category"], "text": c["text"], "design_ref": c["design_ref"]},
-            "level_note": c["note"],
+            "level_note": c["note"] + (" Added in rounds 9-10: " + ADDED[pid] if pid in ADDED else ""),
             "technique": c["technique"],
         })
     claimed = set(CLAIMS)
